@@ -545,6 +545,41 @@ func checkC18(c *Ctx, r *Report) {
 		})
 	}
 
+	// D'. every way into session establishment is accounted: whoever calls the (unexported)
+	// constructor counts the attempt — an entry point that reaches it directly opens sessions
+	// nobody counted, and each of their closes drags the open gauge down
+	r.Rule("constructor-callers-accounted", "every function that calls the session constructor increments session_open_attempts_total itself", 1)
+	if m := c.findCtor(); m == nil || m.Fn == nil {
+		r.Lost("session constructor")
+	} else {
+		nCallers := 0
+		for _, fn := range c.LibFuncs() {
+			if fn == m.Fn {
+				continue
+			}
+			calls := false
+			rawInstrs(fn, false, func(in ssa.Instruction) {
+				if cc := asCall(in); cc != nil && cc.StaticCallee() == m.Fn {
+					calls = true
+				}
+			})
+			if !calls {
+				continue
+			}
+			nCallers++
+			counts := false
+			viewInstrs(fn, func(in ssa.Instruction) {
+				if e, ok := mi.eventOf(in); ok && e.Metric == "session_open_attempts_total" && e.Op == "Inc" {
+					counts = true
+				}
+			})
+			r.Check(counts, c.FnName(fn)+"|calls the constructor", fn.Pos(), "counts the attempt", c.FnName(fn)+" calls the session constructor without counting the attempt: sessions opened through it appear in no open counter, and their closes still decrement the gauge")
+		}
+		if nCallers == 0 {
+			r.Unk("constructor callers", m.Fn.Pos(), "no static caller of the session constructor found")
+		}
+	}
+
 	// E. and no transmission happens outside the accounted operations (shared with C09, C04, C10, C13),
 	// nor more than one per accounted Send: "retries = transmissions beyond the first" counts
 	// calls of Transport.Send
